@@ -1,9 +1,245 @@
-//! C02: not built yet.
-use crate::out::Out;
-use serde_json::Value;
+//! C02: `IntervalDomain::bin_op / un_op / cast / subpiece` on generated interval values.
+//! One event per call: {ev:"op", kind, op, x, y, size, low} -> {r, panic}.  For kinds without a
+//! second operand `y` repeats `x` (ignored by the specification).  The harness records; T_C02.tla
+//! (Interval!SoundBin ...) decides.
+use crate::domenc::*;
+use crate::ivgen::*;
+use crate::out::{catch, Out};
+use crate::props::c01::{parse, INT_BIN_OPS};
+use crate::rng::Rng;
+use cwe_checker_lib::abstract_domain::*;
+use cwe_checker_lib::intermediate_representation::*;
+use serde_json::{json, Value};
 
-pub fn gen(_out: &mut Out, _sub: &str) {}
+/// Re-execute the inputs of one event on the real code.
+pub fn exec(input: &Value) -> Value {
+    let kind = input["kind"].as_str().unwrap().to_string();
+    let op = input["op"].as_str().unwrap().to_string();
+    let x = iv_from_json(&input["x"]);
+    let size = input["size"].as_u64().unwrap();
+    let low = input["low"].as_u64().unwrap();
+    let mut ev = serde_json::Map::new();
+    for k in ["kind", "op", "x", "y", "size", "low", "cls"] {
+        ev.insert(k.to_string(), input[k].clone());
+    }
+    ev.insert("ev".into(), json!("op"));
+    let res: Result<IntervalDomain, String> = match kind.as_str() {
+        "bin" => {
+            let y = iv_from_json(&input["y"]);
+            let o: BinOpType = parse(&op);
+            catch(move || x.bin_op(o, &y))
+        }
+        "un" => {
+            let o: UnOpType = parse(&op);
+            catch(move || x.un_op(o))
+        }
+        "cast" => {
+            let o: CastOpType = parse(&op);
+            catch(move || x.cast(o, ByteSize::new(size)))
+        }
+        _ => catch(move || x.subpiece(ByteSize::new(low), ByteSize::new(size))),
+    };
+    match res {
+        Ok(r) => {
+            ev.insert("r".into(), iv(&r));
+            ev.insert("panic".into(), json!(""));
+        }
+        Err(p) => {
+            ev.insert("r".into(), input["x"].clone());
+            ev.insert("panic".into(), json!(if p.is_empty() { "panic".to_string() } else { p }));
+        }
+    }
+    Value::Object(ev)
+}
 
-pub fn replay(_run: &[Value], _sub: &str) -> Vec<Value> {
-    Vec::new()
+pub fn replay(run: &[Value], _sub: &str) -> Vec<Value> {
+    run.iter().map(exec).collect()
+}
+
+/// Feature tag of the INPUTS of an event (used only to key known findings, never to decide).
+fn cls(op: &str, x: &RawIv, y: Option<&RawIv>, size: u64) -> &'static str {
+    let single = |r: &RawIv| r.start == r.end;
+    let zero = |r: &RawIv| single(r) && to_i128(&r.start) == 0;
+    let corner = |r: &RawIv, v: i128| to_i128(&r.start) == v || to_i128(&r.end) == v;
+    match (op, y) {
+        ("Piece", Some(y)) if single(y) && !single(x) && ((x.stride as u128) << (8 * y.width())) > u64::MAX as u128 => "piece_stride_overflow",
+        ("IntMult", Some(y)) if corner(x, -1) && to_i128(&y.start) == smin(y.width()) => "mul_neg1_times_min",
+        ("IntLeft", Some(y)) if corner(x, -1) && single(y) && y.start.try_to_u64().ok() == Some(8 * x.width() - 1) => "mul_neg1_times_min",
+        ("IntMult", Some(y)) if (zero(x) && !single(y)) || (zero(y) && !single(x)) => "mul_by_zero",
+        ("IntZExt", _) if size > 8 && to_i128(&x.start) < 0 && to_i128(&x.end) >= 0 => "zext_wide_sign_crossing",
+        _ => "",
+    }
+}
+
+fn input(kind: &str, op: &str, x: &RawIv, y: Option<&RawIv>, size: u64, low: u64) -> Value {
+    json!({"kind": kind, "op": op, "x": x.json(), "y": y.unwrap_or(x).json(), "size": size, "low": low, "cls": cls(op, x, y, size)})
+}
+
+fn is_top_or_single(r: &Value) -> bool {
+    let raw = RawIv::from_json(r);
+    let w = raw.width();
+    raw.start == raw.end || (to_i128(&raw.start) == smin(w) && to_i128(&raw.end) == smax(w) && raw.stride == 1)
+}
+
+fn push(out: &mut Out, inp: Value) {
+    let ev = exec(&inp);
+    // rule: the result is neither Top nor a singleton, or the operands have more than one member pair
+    let pairs = count(&RawIv::from_json(&ev["x"])).saturating_mul(if ev["kind"] == "bin" { count(&RawIv::from_json(&ev["y"])) } else { 1 });
+    let nt = ev["panic"] == "" && (!is_top_or_single(&ev["r"]) || pairs > 1);
+    out.emit(vec![ev], nt);
+}
+
+const RICH: [&str; 5] = ["IntAdd", "IntSub", "IntMult", "IntLeft", "Piece"];
+const FLOAT_BIN: [&str; 4] = ["FloatEqual", "FloatLess", "FloatAdd", "FloatDiv"];
+const HINT_PCT: u64 = 35;
+
+/// shift amounts: mostly around the bit width, sometimes an interval
+fn shift_amount(rng: &mut Rng, wx: u64, wy: u64) -> RawIv {
+    let bits = 8 * wx as i128;
+    let v = match rng.below(10) {
+        0..=4 => rng.range(0, 9) as i128,
+        5 => bits - 1,
+        6 => bits,
+        7 => bits + 1,
+        8 => rng.range(0, 127) as i128,
+        _ => return rand_raw(rng, wy, 0),
+    }
+    .min(smax(wy));
+    if rng.chance(1, 6) && v < smax(wy) {
+        raw(v, (v + rng.range(1, 3) as i128).min(smax(wy)), 1, wy)
+    } else {
+        raw(v, v, 0, wy)
+    }
+}
+
+/// A partner for x such that x+y / x-y / x*y just overflows or just does not.
+fn near_overflow_partner(rng: &mut Rng, x: &RawIv, w: u64, op: &str) -> RawIv {
+    let (xs, xe) = (to_i128(&x.start), to_i128(&x.end));
+    let (mn, mx) = (smin(w), smax(w));
+    let d = rng.range(-1, 1) as i128;
+    let (s, e) = match op {
+        "IntAdd" => if rng.chance(1, 2) { let e = mx - xe + d; (e - rng.range(0, 5) as i128, e) } else { let s = mn - xs + d; (s, s + rng.range(0, 5) as i128) },
+        "IntSub" => if rng.chance(1, 2) { let s = xe - mx + d; (s, s + rng.range(0, 5) as i128) } else { let e = xs - mn + d; (e - rng.range(0, 5) as i128, e) },
+        _ => {
+            let m = xe.abs().max(xs.abs()).max(1);
+            let q = mx / m + d;
+            if rng.chance(1, 2) { (q - rng.range(0, 3) as i128, q) } else { (-q, -q + rng.range(0, 3) as i128) }
+        }
+    };
+    let (s, e) = (s.clamp(mn, mx), e.clamp(mn, mx));
+    let (s, e) = if s <= e { (s, e) } else { (e, s) };
+    raw(s, e, if s == e { 0 } else { 1 }, w)
+}
+
+fn bin_events(out: &mut Out, rng: &mut Rng, op: &str, wx: u64, n: u64, max_pairs: u128) {
+    let shift = matches!(op, "IntLeft" | "IntRight" | "IntSRight");
+    let mut i = 0;
+    let mut tries = 0;
+    while i < n && tries < 20 * n {
+        tries += 1;
+        let x = rand_raw(rng, wx, HINT_PCT);
+        let wy = if shift { *rng.pick(&[1u64, 1, 1, wx.min(8)]) } else if op == "Piece" { *rng.pick(&[1u64, 2, 4, 8]) } else { wx };
+        if op == "Piece" && wx == 1 && rng.chance(2, 3) && wy != 1 { continue; }
+        let y = if shift {
+            shift_amount(rng, wx, wy)
+        } else if RICH.contains(&op) && op != "Piece" && rng.chance(1, 4) {
+            near_overflow_partner(rng, &x, wx, op)
+        } else {
+            rand_raw(rng, wy, HINT_PCT)
+        };
+        if count(&x).saturating_mul(count(&y)) > max_pairs { continue; }
+        // both operand orders
+        let (a, b) = if !shift && op != "Piece" && rng.chance(1, 2) { (&y, &x) } else { (&x, &y) };
+        push(out, input("bin", op, a, Some(b), 0, 0));
+        i += 1;
+    }
+}
+
+pub fn gen(out: &mut Out, _sub: &str) {
+    let mut rng = Rng::new(out.seed ^ 0xC02);
+    let q = out.quick();
+    // ---- 1-byte operands: gamma enumerated completely by the specification ----------------------
+    for op in INT_BIN_OPS {
+        let n = if RICH.contains(&op) { out.size(650, 9000) } else { out.size(90, 1100) };
+        bin_events(out, &mut rng, op, 1, n, 40000);
+    }
+    for op in FLOAT_BIN {
+        let w = *rng.pick(&[1u64, 4, 8]);
+        bin_events(out, &mut rng, op, w, 6, 40000);
+    }
+    // unary / casts / subpiece on 1- and 2-byte intervals (complete enumeration up to 65536 members)
+    for w in [1u64, 2] {
+        let n = out.size(if w == 1 { 200 } else { 35 }, if w == 1 { 2200 } else { 400 });
+        for _ in 0..n {
+            let mut x = rand_raw(&mut rng, w, HINT_PCT);
+            if w == 2 && count(&x) > 6000 && rng.chance(if q { 9 } else { 5 }, 10) { x = rand_raw_sized(&mut rng, w, Size::Medium, HINT_PCT); }
+            for op in ["Int2Comp", "IntNegate"] {
+                push(out, input("un", op, &x, None, 0, 0));
+            }
+            if w == 1 {
+                push(out, input("un", "BoolNegate", &x, None, 0, 0));
+            }
+            for op in ["IntZExt", "IntSExt"] {
+                let size = *rng.pick(&[w, 2, 4, 8, 8]);
+                if size >= w { push(out, input("cast", op, &x, None, size, 0)); }
+            }
+            for op in ["PopCount", "LzCount"] {
+                if rng.chance(1, 3) { push(out, input("cast", op, &x, None, *rng.pick(&[1u64, 2, 4, 8]), 0)); }
+            }
+            if rng.chance(1, 20) {
+                push(out, input("un", *rng.pick(&["FloatNegate", "FloatAbs", "FloatSqrt", "FloatNaN"]), &x, None, 0, 0));
+                push(out, input("cast", *rng.pick(&["Int2Float", "Float2Float", "Trunc"]), &x, None, *rng.pick(&[4u64, 8]), 0));
+            }
+            if w == 2 {
+                for (low, size) in [(0u64, 1u64), (1, 1), (0, 2)] {
+                    push(out, input("sub", "Subpiece", &x, None, size, low));
+                }
+            } else {
+                push(out, input("sub", "Subpiece", &x, None, 1, 0));
+            }
+        }
+    }
+    // ---- wider operands: member sampling inside the specification -----------------------------
+    for w in [2u64, 4, 8] {
+        for op in INT_BIN_OPS {
+            if op.starts_with("Bool") { continue; }
+            let n = if RICH.contains(&op) { out.size(45, 500) } else { out.size(10, 80) };
+            bin_events(out, &mut rng, op, w, n, u128::MAX);
+        }
+        // Piece with a 1-byte upper part and a wide lower part
+        bin_events(out, &mut rng, "Piece", 1, out.size(25, 200), u128::MAX);
+        let n = out.size(120, 1000);
+        for _ in 0..n {
+            let x = rand_raw(&mut rng, w, HINT_PCT);
+            if w > 2 {
+                for op in ["Int2Comp", "IntNegate"] {
+                    push(out, input("un", op, &x, None, 0, 0));
+                }
+                for op in ["IntZExt", "IntSExt"] {
+                    let size = *rng.pick(&[w, 4, 8, 8, 16]);
+                    if size >= w { push(out, input("cast", op, &x, None, size, 0)); }
+                }
+                for op in ["PopCount", "LzCount"] {
+                    if rng.chance(1, 3) { push(out, input("cast", op, &x, None, *rng.pick(&[1u64, 2, 4, 8]), 0)); }
+                }
+            }
+            // subpieces: all (low, size) splits at byte granularity for this width, two per interval
+            for _ in 0..2 {
+                let low = rng.below(w);
+                let size = 1 + rng.below(w - low);
+                // intervals short enough for subpiece_lower to keep bounds are rare at random: force some
+                let xs = if rng.chance(1, 2) {
+                    let s = pick_val(&mut rng, w);
+                    let span = 1i128 << (8 * size.min(w - 1));
+                    let e = (s + rng.range(0, 3) as i128 * span / 4 + rng.range(0, 300) as i128).min(smax(w));
+                    let st = if s == e { 0 } else { 1 };
+                    let mut r = raw(s, e, st, w);
+                    let (lo, hi, d) = rand_hints(&mut rng, w, s, e, st, HINT_PCT);
+                    r.lo = lo.map(|v| bvs(v, w)); r.hi = hi.map(|v| bvs(v, w)); r.delay = d;
+                    r
+                } else { x.clone() };
+                push(out, input("sub", "Subpiece", &xs, None, size, low));
+            }
+        }
+    }
 }
